@@ -274,6 +274,11 @@ class Generation:
                    'AttributeError': AttributeError, 'OSError': OSError}[fault.get('exc', 'RuntimeError')]
             data = pickle.dumps((None, functions._test_raise_error, (None, exc), {}), 4)
 
+        elif phase == 'host_interrupt':
+            # not a fault of the helper: the user hits Ctrl-C while the host is about to talk to the
+            # helper; nothing has been sent yet, so the protocol stays in step
+            raise KeyboardInterrupt()
+
         elif phase == 'raise_in_handler':
             # the helper stays alive; the request reaches the Listener under the Script's own
             # inference-state id (so the helper-side state is created) and the handler raises an
@@ -288,7 +293,12 @@ class Generation:
             # dump) and then dies with the request in flight
             from jedi.inference.compiled.subprocess import functions
             n = int(fault.get('lines', 1500))
-            pre = pickle.dumps((None, functions._test_print, (None,), {'stderr': ('stderr line of a dying helper\n' * n)}), 4)
+            if fault.get('binary'):
+                import builtins
+                junk = b'native crash report \xff\xfe\x80 caf\xe9\n' * n
+                pre = pickle.dumps((None, builtins.eval, ("__import__('os').write(2, %r)" % (junk,),), {}), 4)
+            else:
+                pre = pickle.dumps((None, functions._test_print, (None,), {'stderr': ('stderr line of a dying helper\n' * n)}), 4)
             self._real_roundtrip(pre)
 
         # keep the model of the helper-side table (only for requests that are delivered)
